@@ -348,6 +348,9 @@ static void exec_line(const char *bare) {
           }
           fputc('\n', fout);
           if (ng.n) bump("commit_group_created"); else bump("commit_group_none");
+          for (unsigned a = 1; a < ng.n; a++)
+            if (ng.o[a]->type == HWLOC_OBJ_GROUP && ng.o[0]->type == HWLOC_OBJ_GROUP
+                && ng.o[a]->attr->group.subkind != ng.o[0]->attr->group.subkind) { bump("commit_group_nested_rounds"); break; }
         }
         else fprintf(fout, "ok\n");
       }
